@@ -325,6 +325,7 @@ class ipv6 (packet_base):
     assert isinstance(raw, bytes)
     self.next = None # In case of unfinished parsing
     self.raw = raw
+    self.trailer = b''
     if len(raw) < self.MIN_LEN:
       self.msg('warning IP packet data too short to parse header:'
                ' data len %u' % (len(raw),))
@@ -350,7 +351,7 @@ class ipv6 (packet_base):
       length = len(raw) - offset # Clamp to what we've got
       self.msg('(ipv6) warning IP packet data incomplete (%s of %s)'
                % (len(raw), self.payload_length))
-    self.trailer = raw[offset+length:]
+    trailer = raw[offset+length:]
 
     while nht != ipv6.NO_NEXT_HEADER:
       c = _extension_headers.get(nht)
@@ -371,6 +372,7 @@ class ipv6 (packet_base):
         break
 
     self.parsed = True
+    self.trailer = trailer
 
     #TODO: This should be done a better way (and shared with IPv4?).
     if nht == self.UDP_PROTOCOL:
